@@ -648,6 +648,14 @@ Definition packets (r : reader) (s : stream_rec) : option (list opacket) :=
 Record chunk := { c_dir : bool; c_bytes : bytes; c_ts : N }.
 Definition SPLIT_NS : N := 50000000.          (* ChunkSplitThreshold *)
 
+(* reader.go:501-505: a data record joins the newest group of its direction when the previous data record had
+   the same direction and is less than 50 ms older; else it opens a group *)
+Definition merge_into (prev : option (bool * N)) (dir : bool) (ts sz : N) (l : list (N * N)) : list (N * N) :=
+  match l, prev with
+  | (t, z) :: r, Some (pd, pt) => if Bool.eqb pd dir && (ts - pt <? SPLIT_NS) then (t, z + sz) :: r else (ts, sz) :: l
+  | _, _ => (ts, sz) :: l
+  end.
+
 (* first loop of Data(): per direction the list of (time, size) groups, newest first.
    prev = (direction, time) of the previous record with data *)
 Fixpoint data_scan (fuel : nat) (ps : list packet_rec) (expect reft lastrel : N) (prev : option (bool * N))
@@ -664,14 +672,10 @@ Fixpoint data_scan (fuel : nat) (ps : list packet_rec) (expect reft lastrel : N)
       let lastrel' := if expect =? 0 then lastrel else pk_rel p in
       let dir := negb ((pk_flags p / 2) mod 2 =? 0) in
       let ts := reft' + pk_rel p * 1000 in
-      let merge_into (l : list (N * N)) : list (N * N) :=
-          match l, prev with
-          | (t, z) :: r, Some (pd, pt) => if Bool.eqb pd dir && (ts - pt <? SPLIT_NS) then (t, z + pk_size p) :: r else (ts, pk_size p) :: l
-          | _, _ => (ts, pk_size p) :: l
-          end in
       let '(ptc', pts', prev') :=
           if pk_size p =? 0 then (ptc, pts, prev)
-          else if dir then (ptc, merge_into pts, Some (dir, ts)) else (merge_into ptc, pts, Some (dir, ts)) in
+          else if dir then (ptc, merge_into prev dir ts (pk_size p) pts, Some (dir, ts))
+               else (merge_into prev dir ts (pk_size p) ptc, pts, Some (dir, ts)) in
       if pk_flags p mod 2 =? 0 then Some (rev ptc', rev pts')
       else let rest' := if negb (pk_skip p =? 0) && (expect' =? 0) then skipN (pk_skip p) rest else rest in
            data_scan fu rest' expect' reft' lastrel' prev' ptc' pts'
